@@ -26,3 +26,7 @@ def run(tier, seed, verdict):
         assumptions=["fault classes driven here: duplicate / empty / slash name, empty type, type=None, wrong kind, "
                      "foreign block, not a member, unknown name / out-of-range index on delete, positions=None; the "
                      "data-type, shape, ticks and value-type classes are driven by the array / metadata checks"])
+
+
+def replay(path):
+    return mr.replay_file(path)
